@@ -913,6 +913,9 @@ func (x *Exec) builtin(fr *Frame, st *State, in ssa.Instruction, b *ssa.Builtin,
 	case "copy":
 		return x.doCopy(st, args[0], args[1])
 	case "delete":
+		if len(c.Args) > 0 {
+			x.directWrite(fr, st, in, c.Args[0])
+		}
 		if args[0].K == KRef && args[1].K != KOpaque {
 			x.mapDelete(st, args[0], args[1])
 		} else {
